@@ -15,6 +15,9 @@
    with another id is dropped as stale; TCP: a frame whose id has no pending slot is dropped), an idle pooled socket
    keeps it buffered for whoever borrows the socket next.
 
+   AnswerRcode = "nx": every answer is a name error: it reaches the leader and every waiter (each under its own id) but is not
+   cached, so that a later identical question is resolved again and the waiters are served from the shared result itself.
+
    CheckQuestion = FALSE is the code as found (an answer is accepted on its id alone); TRUE adds the validation of the
    answer's question against the query in forwardWithDialArg.
 
@@ -27,6 +30,7 @@ EXTENDS Integers, Sequences, FiniteSets, TLC, Json
 
 CONSTANTS Clients, Cid, Qof,        \* Cid, Qof : functions on Clients (transaction id, question)
           Transport, CheckQuestion,
+          AnswerRcode,              \* "ok": the server's answers carry records (cached); "nx": NXDOMAIN - relayed, never cached
           MaxSends, MaxSocks, MaxWid, MaxGen
 
 Questions == {Qof[c] : c \in Clients}
@@ -86,7 +90,7 @@ Finish(c, ok, m, g, retire, sk1, il1, cn1) ==
                                     THEN (IF ok THEN [kind |-> "msg", id |-> Cid[x], q |-> m.q] ELSE [kind |-> "err", id |-> 0, q |-> ""])
                                     ELSE reply[x]]
      /\ flight' = [flight EXCEPT ![q] = NoC] /\ waiters' = [waiters EXCEPT ![q] = {}]
-     /\ cache' = IF ok THEN [cache EXCEPT ![q] = m.q] ELSE cache
+     /\ cache' = IF ok /\ AnswerRcode = "ok" THEN [cache EXCEPT ![q] = m.q] ELSE cache
      /\ fw' = f1
      /\ ngen' = ngen
      /\ gen' = IF retire /\ gen = g THEN 0 ELSE gen           \* a retired forwarder leaves the cache: the next query builds a new one
@@ -165,7 +169,7 @@ ArriveLeadUdp(c) ==
                     closedNow == f1[g].closed > fw[g].closed
                 IN /\ cst' = [cst EXCEPT ![c] = "done"]
                    /\ reply' = [reply EXCEPT ![c] = IF ok THEN [kind |-> "msg", id |-> Cid[c], q |-> d.m.q] ELSE [kind |-> "err", id |-> 0, q |-> ""]]
-                   /\ cache' = IF ok THEN [cache EXCEPT ![Qof[c]] = d.m.q] ELSE cache
+                   /\ cache' = IF ok /\ AnswerRcode = "ok" THEN [cache EXCEPT ![Qof[c]] = d.m.q] ELSE cache
                    /\ fw' = f1
                    /\ gen' = IF ok THEN g ELSE 0
                    /\ ngen' = IF gen = 0 THEN ngen + 1 ELSE ngen
@@ -248,7 +252,7 @@ RetiredGetsClosed == \A g \in 1..MaxGen : (fw[g].retired /\ fw[g].inFlight = 0) 
 Done == \A c \in Clients : cst[c] = "done"
 View == <<cst, reply, flight, waiters, cache, gen, ngen, fw, socks, idle, conn, reqs, order, nsends>>
 
-Behaviour == [transport |-> Transport, hist |-> hist, cid |-> Cid, qof |-> Qof]
+Behaviour == [transport |-> Transport, hist |-> hist, cid |-> Cid, qof |-> Qof, rcode |-> AnswerRcode]
 Emit == (Done /\ nsends = MaxSends) => PrintT(<<"BEHAVIOUR", ToJson(Behaviour)>>)
 EmitAny == (Done) => PrintT(<<"BEHAVIOUR", ToJson(Behaviour)>>)
 
